@@ -468,6 +468,11 @@ class ExprMixin:
             return Sc(z3.If(c, self.term(a, st, INT), self.term(b, st, INT)), INT)
         if isinstance(a, TupleV) and isinstance(b, TupleV):
             return TupleV([self.merge_vals(c, x, y, st) for x, y in zip(a.items, b.items)])
+        if (a.t.kind == 'optint' and b.t.kind == 'real') or (a.t.kind == 'real' and b.t.kind == 'optint'):
+            # `x if x is not None else default_real`: the number carried by the Optional[int] side (see num())
+            ta = z3.ToReal(OPTINT.acc('oi_val')(a.term)) if a.t.kind == 'optint' else self.term(a, st, REAL)
+            tb = z3.ToReal(OPTINT.acc('oi_val')(b.term)) if b.t.kind == 'optint' else self.term(b, st, REAL)
+            return Sc(z3.If(c, ta, tb), REAL)
         if a.t.kind == 'optint' or b.t.kind == 'optint':
             return Sc(z3.If(c, self.term(a, st, OPTINT), self.term(b, st, OPTINT)), OPTINT)
         return Sc(z3.If(c, self.term(a, st), self.term(b, st)), a.t)
